@@ -331,3 +331,90 @@ func (w *world) headerJSONGroup(rng *hx.Rng, seed int, thorough bool, tr *hx.Tra
 		n++
 	}
 }
+
+// claimsGroup: honestly signed tokens whose PAYLOAD bytes exercise the claims decoder of jwt.Parse (stream decoder
+// of the same JSON fork with UseNumber: one value, numbers not converted, duplicate members rejected, object or
+// null), through the entry points with claims decoding on and off.
+func (w *world) claimsGroup(rng *hx.Rng, seed int, thorough bool, tr *hx.Trace) {
+	deep := strings.Repeat("[", 120) + strings.Repeat("]", 120)
+	payloads := []hdrVariant{
+		{"object", `{"iss":"did:ex:a","n":1}`},
+		{"empty-object", `{}`},
+		{"ws", " \n\t{ \"iss\" : \"x\" }\r\n"},
+		{"dup", `{"iss":"a","iss":"b"}`},
+		{"dup-escaped", `{"iss":"a","\u0069ss":"b"}`},
+		{"dup-nested", `{"iss":"a","vc":{"id":1,"id":2}}`},
+		{"dup-in-array", `{"iss":"a","l":[{"x":1,"x":1}]}`},
+		{"case-not-dup", `{"iss":"a","Iss":"b","ISS":"c"}`},
+		{"trailing-garbage", `{"iss":"a"}xyz`},
+		{"trailing-object", `{"iss":"a"} {"iss":"b"}`},
+		{"trailing-brace", `{"iss":"a"}}`},
+		{"trailing-invalid-utf8", "{\"iss\":\"a\"}\xff\x00"},
+		{"null", `null`},
+		{"null-space", "null \n"},
+		{"null-garbage", `nullx`},
+		{"null-space-garbage", `null x`},
+		{"null-brace", `null{`},
+		{"space-null", ` null`},
+		{"true", `true`},
+		{"number", `1`},
+		{"string", `"{}"`},
+		{"array", `[{"iss":"a"}]`},
+		{"empty", ``},
+		{"ws-only", ` `},
+		{"num-overflow", `{"exp":1e999,"n":-1e400}`},
+		{"num-bad", `{"exp":01}`},
+		{"num-bad-dot", `{"exp":1.}`},
+		{"num-huge", `{"exp":` + strings.Repeat("9", 400) + `}`},
+		{"utf8-invalid", "{\"iss\":\"a\xffb\"}"},
+		{"utf8-dup-coerced", "{\"a\xff\":1,\"a\xfe\":2}"},
+		{"surrogates", `{"iss":"\ud800\udc00\udc00"}`},
+		{"control-in-string", "{\"iss\":\"a\nb\"}"},
+		{"single-quotes", `{'iss':'a'}`},
+		{"trailing-comma", `{"iss":"a",}`},
+		{"unterminated", `{"iss":"a"`},
+		{"bom", "\ufeff{\"iss\":\"a\"}"},
+		{"deep", `{"x":` + deep + `}`},
+		{"deep-unbalanced", `{"x":` + deep[:len(deep)-1] + `}`},
+		{"nested-null", `{"iss":null,"vc":{"a":[null,true,false,1.5e-7]}}`},
+	}
+
+	entries := []string{"jwt", "jwt-ignore", "did", "jws"}
+	n := 0
+
+	for ki, k := range w.party {
+		if !thorough && (ki+seed)%4 != 1 {
+			continue
+		}
+
+		ref := didA + "#" + k.name
+		jwkForm := (ki+seed)%2 == 1
+		frag := k.name + "-r"
+
+		if jwkForm {
+			frag = k.name + "-j"
+		}
+
+		hdr := `{"alg":` + q(k.alg) + `,"kid":` + q(didA+"#"+frag) + `}`
+
+		for vi, p := range payloads {
+			b := w.signHdr(ref, jwkForm, hdr, p.text)
+			note := "claims-" + p.note
+			w.run("claims", b.mk("jwt", "basic", note), true, tr)
+			w.run("claims", b.mk(entries[(vi+n)%len(entries)], "basic", note), true, tr)
+
+			if jwkForm {
+				w.run("claims", b.mk("jwt", "single:"+ref, note), true, tr)
+			}
+
+			// the same bytes as a detached payload
+			if vi%3 == n%3 && len(p.text) > 0 {
+				db := *b
+				db.det, db.hasDet, db.pseg = p.text, true, ""
+				w.run("claims", db.mk("jwt", "basic", note+"-detached"), true, tr)
+			}
+		}
+
+		n++
+	}
+}
